@@ -50,7 +50,7 @@ Lemma accept_decomp Pd cc c e c' o :
     step_shape Pd cc c c1 pre.
 Proof.
   intros Hcfg I Ha He HPd E. destruct Hcfg as [Hc1 Hc2].
-  destruct e as [now src dst payload|now src dst payload|now fam dst|ch data sr]; [| | |discriminate]; cbn [cstep] in E.
+  destruct e as [now src dst payload|now src dst payload|now fam dst|ch data sr|tch]; [| | |discriminate|discriminate]; cbn [cstep] in E.
   - (* ondns *)
     assert (Hskip : cc_method cc = MTproxy -> dst = None -> c' = c /\ o = []).
     { intros Em Ed. unfold ondns in E. rewrite Em, Ed in E. inversion E; subst. auto. }
@@ -453,7 +453,7 @@ Lemma accept_alloc cc c e c' o :
      forall ch2 cmd2 d2, In (OFrame ch2 cmd2 d2) o -> opening_cmd cmd2 -> ch2 = ch1 /\ cmd2 = cmd1).
 Proof.
   intros Hcfg I Ha He E.
-  assert (Hd : udp_dst_ok (fun _ => True) e) by (destruct e as [| ? ? [?|] ?| |]; exact Logic.I).
+  assert (Hd : udp_dst_ok (fun _ => True) e) by (destruct e as [| ? ? [?|] ?| | |]; exact Logic.I).
   destruct (accept_decomp (fun _ => True) cc c e c' o Hcfg I Ha He Hd E) as [(Hc & _ & ->)|(now & c1 & pre & I1 & -> & LK & Sh)].
   { split; [intros ch0 k H; left; rewrite <- Hc; exact H|intros ch1 cmd1 d1 []]. }
   assert (Hpre : forall ch1 cmd1 d1, In (OFrame ch1 cmd1 d1) (pre ++ closes now c1) -> opening_cmd cmd1 ->
